@@ -116,6 +116,9 @@ Fixpoint first_diff (i : N) (m o : list tobs) : option N :=
 Definition ecase_diff (thr : N) (ids : list N) (init : rcd) (turns : list sturn) (obs : list tobs) : option N :=
   first_diff 0 (replay thr turns (init_sys ids init)) obs.
 
-(* fault plans as written by the generator: 0 ok, 1 cancelled (applied, reported failed), 2 expired (not applied) *)
-Definition fz (n : N) : opfault := if n =? 0 then FOk else if n =? 1 then FAppliedErr else FLost.
+(* fault plans as written by the generator: 0 ok, 1 cancelled (ErrCanceled: applied, reported failed), 2 expired deadline
+   (ErrInvalidDeadline: not applied), 3 timed out (ErrTimeout: applied, reported failed), 4 deadline below one tick
+   (ErrTimeoutTooSmall: not applied).  For a lookup / session request all four are just a failure. *)
+Definition fz (n : N) : opfault :=
+  if n =? 0 then FOk else if (n =? 1) || (n =? 3) then FAppliedErr else FLost.
 Definition F (r1 s p r2 : N) : faults := mkF (fz r1) (fz s) (fz p) (fz r2).
